@@ -509,6 +509,70 @@ theorem truncated_tail (file : List Line) (k : Nat) (c : Cut) :
 example : ploaded (pcrashAt { file := some [.full 4 1, .full 5 3], tmp := none } (psaveSteps [(2, [4, 5]), (3, [6])]) 3) =
     [.full 4 1, .full 5 3] := by decide
 
+/-- **ps_no_extra_peer.** For EVERY peerstore file (any lines in any order: duplicates, several addresses per peer,
+    interleaved peers, bare addresses, comments, blank and unparsable lines, our own address): the peers a fresh host
+    knows after importing it are exactly the peers (of the universe, other than ourselves) that have a full address
+    line in the file — no extra peer, none missing — and the addresses it holds for such a peer are exactly the
+    addresses of that peer's lines. -/
+theorem ps_no_extra_peer (self : Nat) (file : List Line) (univ : List Nat) :
+    (∀ p, p ∈ (importPeers self (load file) univ).map (·.id) ↔ p ∈ univ ∧ p ≠ self ∧ ∃ a, Line.full a p ∈ file) ∧
+    (∀ k ∈ importPeers self (load file) univ, ∀ a, a ∈ k.addrs ↔ Line.full a k.id ∈ file) ∧
+    (univ.Nodup → ((importPeers self (load file) univ).map (·.id)).Nodup) := by
+  have hentry : ∀ q k, importedEntry self (load file) q = some k →
+      k.id = q ∧ q ≠ self ∧ k.addrs = importedAddrs self (load file) q ∧ ∃ a, Line.full a q ∈ file := by
+    intro q k h
+    unfold importedEntry at h
+    split at h
+    · cases h
+    · rename_i pr hpr
+      cases h
+      unfold importPrio at hpr
+      by_cases hq : q = self
+      · simp [hq] at hpr
+      · simp only [hq, if_false] at hpr
+        obtain ⟨a, ha⟩ := lastIdx_present q (load file) 0 (by rw [hpr]; simp)
+        exact ⟨rfl, hq, rfl, a, full_mem_load.1 ha⟩
+  refine ⟨?_, ?_, ?_⟩
+  · intro p
+    simp only [importPeers, List.mem_map, List.mem_filterMap]
+    constructor
+    · rintro ⟨k, ⟨q, hq, hk⟩, rfl⟩
+      obtain ⟨h1, h2, _, h4⟩ := hentry q k hk
+      rw [h1]
+      exact ⟨hq, h2, h4⟩
+    · rintro ⟨hu, hps, a, ha⟩
+      have hsome := lastIdx_isSome_of_mem p a (load file) 0 none (full_mem_load.2 ha)
+      obtain ⟨pr, hpr⟩ := Option.isSome_iff_exists.1 hsome
+      exact ⟨{ id := p, prio := some pr, addrs := importedAddrs self (load file) p },
+        ⟨p, hu, by simp [importedEntry, importPrio, hps, hpr]⟩, rfl⟩
+  · intro k hk a
+    simp only [importPeers, List.mem_filterMap] at hk
+    obtain ⟨q, _, hk⟩ := hk
+    obtain ⟨h1, h2, h3, _⟩ := hentry q k hk
+    rw [h3, h1, mem_importedAddrs, full_mem_load]
+    exact ⟨fun h => h.1, fun h => ⟨h, h2⟩⟩
+  · intro hn
+    unfold importPeers
+    rw [List.map_filterMap]
+    have : ∀ q, (importedEntry self (load file) q).map (·.id) = if (importedEntry self (load file) q).isSome then some q else none := by
+      intro q
+      cases h : importedEntry self (load file) q with
+      | none => rfl
+      | some k => simp [(hentry q k h).1]
+    simp only [this]
+    refine List.Nodup.sublist ?_ hn
+    clear hn
+    induction univ with
+    | nil => exact List.Sublist.slnil
+    | cons x t ih =>
+      rw [List.filterMap_cons]
+      by_cases hx : (importedEntry self (load file) x).isSome = true
+      · simp only [hx, if_true]; exact List.Sublist.cons_cons _ ih
+      · simp only [hx]; exact List.Sublist.cons _ ih
+
+example : (importPeers 0 (load [.noSlash 0, .full 4 2, .bare 5, .full 6 3, .full 5 2, .slashBad 1, .full 7 0, .empty]) (List.range 6)).map (·.id) =
+    [2, 3] := by decide
+
 /-! ## Prop-level readings of the Bool checkers -/
 
 /-- Prop reading of the Bool checker `samePinset`: one pin per cid on both sides, same pins. -/
